@@ -5,6 +5,7 @@ import WireV.Names
 import WireV.NameEmit
 import WireV.Front
 import WireV.Path
+import WireV.Value
 import WireV.Cmd
 import WireV.Generated.Tables
 /-! # WireV.Driver — line protocol of the unit tier (one request per line, one reply per line) -/
@@ -346,6 +347,39 @@ def runPath (ws : List String) : String :=
     joinWith " ; " (frameImports (mk rest))
   | _ => "bad-request"
 
+-- VExpr in prefix form: `( N kind e… )`, `( U 0|1 e )`, `( C t|s|n|b fn args… )`
+mutual
+partial def parseVExpr : List String → Option (VExpr × List String)
+  | "(" :: "N" :: kind :: rest =>
+    match parseVMany rest [] with
+    | some (cs, r) => some (.node kind cs, r)
+    | none => none
+  | "(" :: "U" :: arrow :: rest =>
+    match parseVExpr rest with
+    | some (e, ")" :: r) => some (.unary (arrow == "1") e, r)
+    | _ => none
+  | "(" :: "C" :: fc :: rest =>
+    let cls := match fc with | "t" => FunClass.typeExpr | "s" => .signature | "n" => .namedFunc | _ => .builtin
+    match parseVExpr rest with
+    | some (fn, r1) =>
+      match parseVMany r1 [] with
+      | some (args, r) => some (.call cls fn args, r)
+      | none => none
+    | none => none
+  | _ => none
+partial def parseVMany (ws : List String) (acc : List VExpr) : Option (List VExpr × List String) :=
+  match ws with
+  | ")" :: r => some (acc, r)
+  | _ => match parseVExpr ws with
+    | some (e, r) => parseVMany r (acc ++ [e])
+    | none => none
+end
+
+def runValue (ws : List String) : String :=
+  match parseVExpr ws with
+  | some (e, []) => s!"{b2s (processValueOk e)} evaluates={b2s (evaluatesCall e)} funclit={b2s (hasFuncLit e)}"
+  | _ => "bad-request"
+
 def parseNats (ws : List String) : Option (List Nat) := ws.mapM String.toNat?
 
 def handleLine (line : String) : String :=
@@ -364,6 +398,7 @@ def handleLine (line : String) : String :=
   | "hist" :: rest => match parseNats rest with
     | some ns => runHist ns
     | none => "bad-request nat"
+  | "value" :: rest => runValue rest
   | "path" :: rest => runPath rest
   | "fields" :: rest => runFields rest
   | "namefile" :: rest => runNameFile rest
